@@ -126,8 +126,12 @@ class Ctx:
     def broken_tie(self, name, detail, case=None):
         """Model and implementation disagree (or a proof obligation no longer checks) but no
         oracle has failed so far."""
-        self.obligation(name, "correspondence", False, detail)
-        self.extra.setdefault("disagreements", []).append(dict(name=name, detail=detail, case=case))
+        if name not in self.broken:
+            self.obligation(name, "correspondence", False, detail)
+        self.count("disagreement:" + name)
+        d = self.extra.setdefault("disagreements", [])
+        if len(d) < 10:
+            d.append(dict(name=name, detail=detail, case=case))
 
 
 def load_known(prop):
@@ -298,7 +302,8 @@ def finish(ctx, mod):
                                       build_log=ctx.extra.get("build_log", "")[-3000:],
                                       searched=dict(evaluations=ctx.evaluations, note="oracles on the real code found no failing input")))
         viol_lines.append("VIOLATION property=%s replay=%s no-failing-input-found" % (ctx.prop, path))
-    write_evidence(ctx, mod, len(ctx.violations) + (1 if (ctx.broken and not ctx.violations) else 0))
+    if not getattr(ctx, 'replaying', False):
+        write_evidence(ctx, mod, len(ctx.violations) + (1 if (ctx.broken and not ctx.violations) else 0))
     for l in viol_lines:
         print(l)
     print("%s %s seed=%s: %d cases (%d distinct non-trivial), %d/%d obligations, %.1fs -> %s" % (
@@ -361,6 +366,7 @@ def main(argv):
         mod = importlib.import_module("harness.props.%s" % args.prop)
         if args.replay:
             obj = json.loads(Path(args.replay).read_text())
+            ctx.replaying = True
             mod.replay(ctx, obj)
             return finish(ctx, mod)
         if not args.no_lean:
